@@ -15,6 +15,7 @@ import (
 	"crypto/elliptic"
 	"crypto/rand"
 	"crypto/rsa"
+	"crypto/tls"
 	"crypto/x509"
 	"encoding/base64"
 	"encoding/hex"
@@ -25,10 +26,12 @@ import (
 	"math/big"
 	"net"
 	"net/http"
+	"net/http/cookiejar"
 	"net/http/httputil"
 	"net/url"
 	"os"
 	"path/filepath"
+	"regexp"
 	"sort"
 	"strings"
 	"syscall"
@@ -273,6 +276,9 @@ type c19Run struct {
 	agentPresent bool
 	second       bool
 	otp          bool
+	web          bool     // web-browser login (lib/client/webauth) with a stored CLI token
+	webToken     string   // the CLI token the user's browser obtained
+	browserArgs  []string // what the client handed to the browser command
 	user         string
 	otpCode      string
 	err          error
@@ -327,6 +333,8 @@ var c19PrefCode = map[string]int{"rsa": 0, "p256": 1, "p384": 2}
 func TestVerif_C19(t *testing.T) {
 	res := newVerifResult("the real setupCerts for every key preference (rsa, p256, p384) x agent present (twice in a row, the agent pre-loaded with an old certificate and a plain key under the client's label and a certificate under another label) / absent (key files), against the real keymasterd handlers over TLS (HTTP/2), password login, plus runs against a daemon that asks for a local TOTP code (typed into the prompt when the client asks); every request recorded at the transport; non-trivial = the run obtained its certificates; distinct by (preference, agent, run)")
 	defer ioutil.WriteFile(filepath.Join(verifOut(), "c19_client_done"), []byte("done"), 0644)
+	// WHICH agent (needs no server: done while the server harness comes up)
+	icases, iidx := c19cEnvCases(t, res, testlogger.New(t))
 	// the server harness writes its address when it is up
 	var info map[string]string
 	deadline := time.Now().Add(4 * time.Minute)
@@ -379,17 +387,23 @@ func TestVerif_C19(t *testing.T) {
 		agentPresent bool
 		otp          bool
 		user         string
+		web          bool
 	}
 	var specs []spec
 	for _, pref := range []string{"p256", "p384", "rsa"} {
 		for _, agentPresent := range []bool{true, false} {
-			specs = append(specs, spec{pref, agentPresent, false, info["user"]})
+			specs = append(specs, spec{pref, agentPresent, false, info["user"], false})
 		}
 	}
 	// the one-time-code path (each user can pass TOTP once per 30 s window: one run per user)
-	specs = append(specs, spec{"p256", false, true, "bob"})
+	specs = append(specs, spec{"p256", false, true, "bob", false})
+	// the web-browser login: the user's browser (played by the harness) logs in and shows the CLI token, the token is
+	// in the client's token file, the client verifies it, hands the /sendAuthDocument URL to the browser command and
+	// receives the cookie on its local listener
+	specs = append(specs, spec{"p256", false, false, info["user"], true})
 	if verifThorough() {
-		specs = append(specs, spec{"p384", true, true, "admin"}, spec{"rsa", false, true, "alice"})
+		specs = append(specs, spec{"p384", true, true, "admin", false}, spec{"rsa", false, true, "alice", false})
+		specs = append(specs, spec{"p384", true, false, info["user"], true}, spec{"rsa", false, false, info["user"], true})
 	}
 	var runs []*c19Run
 	origUmask := syscall.Umask(022)
@@ -431,10 +445,10 @@ func TestVerif_C19(t *testing.T) {
 				os.Setenv("SSH_AUTH_SOCK", filepath.Join(home, "no-agent-here.sock"))
 			}
 			nRuns := 1
-			if agentPresent && !sp.otp {
+			if agentPresent && !sp.otp && !sp.web {
 				nRuns = 2
 			}
-			if !agentPresent && !sp.otp && pref != "rsa" {
+			if !agentPresent && !sp.otp && !sp.web && pref != "rsa" {
 				// key files: again into the same HOME, over files that others can read (umask 022), and
 				// once more over its own output (umask 077)
 				nRuns = 3
@@ -454,7 +468,7 @@ func TestVerif_C19(t *testing.T) {
 						syscall.Umask(077)
 					}
 				}
-				run := &c19Run{pref: pref, agentPresent: agentPresent, second: rn == 1, otp: sp.otp, user: sp.user, privs: map[int]interface{}{}}
+				run := &c19Run{pref: pref, agentPresent: agentPresent, second: rn == 1, otp: sp.otp, web: sp.web, user: sp.user, privs: map[int]interface{}{}}
 				cas, target, password := rootCAs, info["url"], info["password"]
 				if sp.otp {
 					cas, target, password = rootCAsT, info["totp_url"], passwords[sp.user]
@@ -487,7 +501,34 @@ func TestVerif_C19(t *testing.T) {
 					addedBefore = len(ag.added)
 				}
 				cfg := config.AppConfigFile{Base: config.BaseConfig{Gen_Cert_URLS: target, PreferredKeyType: pref}}
+				var browserDone chan struct{}
+				urlFile := filepath.Join(home, keymasterSubdir, "browser-opened")
+				if sp.web {
+					browser, token, err := c19BrowserLogin(cas, target, sp.user, password)
+					if err != nil {
+						t.Errorf("web login: %v", err)
+						res.hit(verifHit{Key: "C19:harness:web-login", Oracle: "harness", What: "the browser role could not obtain a CLI token: " + err.Error(), Case: pref})
+						continue
+					}
+					run.webToken = token
+					os.MkdirAll(filepath.Join(home, keymasterSubdir), 0700)
+					ioutil.WriteFile(filepath.Join(home, keymasterSubdir, FilePrefix+".webtoken"), []byte(token+"\n"), 0600)
+					script := filepath.Join(home, keymasterSubdir, "browser.sh")
+					ioutil.WriteFile(script, []byte("#!/bin/sh\nprintf '%s\\n' \"$@\" >> '"+urlFile+"'\n"), 0700)
+					cfg.Base.WebauthBrowser = script
+					browserDone = make(chan struct{})
+					go c19BrowserOpen(browser, urlFile, browserDone)
+				}
 				run.err = setupCerts(sp.user, home, cfg, client, logger)
+				if browserDone != nil {
+					select {
+					case <-browserDone:
+					case <-time.After(5 * time.Second):
+					}
+					if b, err := ioutil.ReadFile(urlFile); err == nil {
+						run.browserArgs = strings.Split(strings.TrimSpace(string(b)), "\n")
+					}
+				}
 				pr.Close()
 				run.reqs = rec.reqs
 				// files
@@ -530,10 +571,10 @@ func TestVerif_C19(t *testing.T) {
 	}
 
 	// ---------------------------------------------------------------- oracles and Coq cases
-	var cases, idx []string
+	var cases, idx, webcases, webidx []string
 	for _, run := range runs {
-		name := fmt.Sprintf("pref=%s agent=%v second=%v otp=%v user=%s", run.pref, run.agentPresent, run.second, run.otp, run.user)
-		cs := map[string]interface{}{"preference": run.pref, "agent_present": run.agentPresent, "second_run": run.second, "one_time_code": run.otp, "user": run.user}
+		name := fmt.Sprintf("pref=%s agent=%v second=%v otp=%v web-login=%v user=%s", run.pref, run.agentPresent, run.second, run.otp, run.web, run.user)
+		cs := map[string]interface{}{"preference": run.pref, "agent_present": run.agentPresent, "second_run": run.second, "one_time_code": run.otp, "web_browser_login": run.web, "user": run.user}
 		res.bump("run:" + run.pref)
 		res.eval(name, run.err == nil)
 		if run.err != nil {
@@ -564,6 +605,9 @@ func TestVerif_C19(t *testing.T) {
 				atoms = append(atoms, "1%N")
 			}
 			if rq.path == "/api/v0/TOTPAuth" && run.otpCode != "" && bytes.Contains(rq.dump, []byte("OTP="+run.otpCode)) {
+				atoms = append(atoms, "1%N")
+			}
+			if rq.path == "/verifyAuthToken" && run.webToken != "" && bytes.Contains(rq.dump, []byte(run.webToken)) {
 				atoms = append(atoms, "1%N")
 			}
 			for k := 0; k < 3; k++ {
@@ -602,6 +646,8 @@ func TestVerif_C19(t *testing.T) {
 				kind = 1
 			case rq.path == "/api/v0/TOTPAuth":
 				kind = 5
+			case rq.path == "/verifyAuthToken":
+				kind = 6
 			case strings.HasPrefix(rq.path, "/certgen/") && rq.query == "type=x509":
 				kind = 2
 			case strings.HasPrefix(rq.path, "/certgen/") && rq.query == "type=x509-kubernetes":
@@ -614,6 +660,27 @@ func TestVerif_C19(t *testing.T) {
 			wire = append(wire, fmt.Sprintf("(%d%%N, [%s])", kind, strings.Join(atoms, "; ")))
 			wireDesc = append(wireDesc, fmt.Sprintf("%s %s?%s{%s}", rq.method, rq.path, rq.query, strings.Join(atoms, ",")))
 			res.bump("requests")
+		}
+		// what the client handed to the browser command (the /sendAuthDocument URL: port, user, token)
+		if run.web {
+			views := c19Views([]byte(strings.Join(run.browserArgs, "\n")))
+			for _, s := range secrets {
+				if c19Contains(views, s.raw) {
+					res.hit(verifHit{Key: "C19:private-on-wire:browser-command-line", Oracle: "the command line of the browser carries private key material", Kind: "input",
+						What: fmt.Sprintf("the browser command was given %s of the client's key %d (%s)", s.name, s.key, name), Case: cs})
+					break
+				}
+			}
+			opened := false
+			for _, a := range run.browserArgs {
+				if strings.Contains(a, "/sendAuthDocument?") && strings.Contains(a, "token="+run.webToken) {
+					opened = true
+				}
+			}
+			if run.err == nil && !opened {
+				res.hit(verifHit{Key: "C19:harness:browser-not-asked", Oracle: "harness", What: "the web login succeeded although the browser command never received the /sendAuthDocument URL (" + name + ")", Case: cs})
+			}
+			res.bump("web-login-runs")
 		}
 		if run.err == nil && !sawPublic {
 			res.hit(verifHit{Key: "C19:harness:search-blind", Oracle: "harness", What: "the byte search does not even find the PUBLIC keys in the recorded certificate requests (" + name + ")", Case: cs})
@@ -674,7 +741,11 @@ func TestVerif_C19(t *testing.T) {
 		for _, l := range run.labels {
 			labels = append(labels, fmt.Sprintf("\"%s\"%%string", l))
 		}
-		if run.err == nil {
+		if run.err == nil && run.web {
+			webcases = append(webcases, fmt.Sprintf(" (%d%%N, %s, %s, %s, \"%s\"%%string,\n  [%s],\n  [%s],\n  [%s])", c19PrefCode[run.pref], coqBool(run.agentPresent), coqBool(edOK), coqBool(k8sOK), run.user,
+				strings.Join(wire, "; "), strings.Join(files, "; "), strings.Join(labels, "; ")))
+			webidx = append(webidx, fmt.Sprintf("%d\t%s ed=%v k8s=%v wire=%s browser-args=%d files=%v labels=%v", len(webidx), name, edOK, k8sOK, strings.Join(wireDesc, " "), len(run.browserArgs), run.files, run.labels))
+		} else if run.err == nil {
 			cases = append(cases, fmt.Sprintf(" (%d%%N, %s, %s, %s, %s, \"%s\"%%string,\n  [%s],\n  [%s],\n  [%s])", c19PrefCode[run.pref], coqBool(run.agentPresent), coqBool(edOK), coqBool(k8sOK), coqBool(run.otp), run.user,
 				strings.Join(wire, "; "), strings.Join(files, "; "), strings.Join(labels, "; ")))
 			idx = append(idx, fmt.Sprintf("%d\t%s ed=%v k8s=%v wire=%s files=%v labels=%v", len(idx), name, edOK, k8sOK, strings.Join(wireDesc, " "), run.files, run.labels))
@@ -683,13 +754,221 @@ func TestVerif_C19(t *testing.T) {
 	}
 	var sb strings.Builder
 	sb.WriteString(coqCaseHeader)
-	sb.WriteString("From KM Require Import Base.Cases Model.Client.\n")
+	sb.WriteString("From KM Require Import Base.Cases Model.Client Model.ClientEnv.\n")
 	sb.WriteString("Definition runs : list (N * bool * bool * bool * bool * string * list (N * list N) * list (string * N * bool) * list string) := [\n" + strings.Join(cases, ";\n") + "\n].\n")
 	sb.WriteString("Definition c19_mismatches := Eval vm_compute in mismatches (fun c => negb (run_matches c)) runs.\nPrint c19_mismatches.\n")
+	// the property predicate on the observation: private material in a recorded request, or a private file open to others
+	sb.WriteString("Definition c19_violating := Eval vm_compute in mismatches (fun c => negb (run_matches c) && run_violates c) runs.\nPrint c19_violating.\n")
+	sb.WriteString("Definition webruns : list (N * bool * bool * bool * string * list (N * list N) * list (string * N * bool) * list string) := [\n" + strings.Join(webcases, ";\n") + "\n].\n")
+	sb.WriteString("Definition c19w_mismatches := Eval vm_compute in mismatches (fun c => negb (web_run_matches c)) webruns.\nPrint c19w_mismatches.\n")
+	sb.WriteString("Definition c19w_violating := Eval vm_compute in mismatches (fun c : N * bool * bool * bool * string * list (N * list N) * list (string * N * bool) * list string => negb (web_run_matches c) && (let '(_, _, _, _, _, wire, files, _) := c in existsb (fun r : N * list N => existsb (fun a => (10 <=? a)%N && (a <=? 12)%N) (snd r)) wire || private_file_open files)) webruns.\nPrint c19w_violating.\n")
+	sb.WriteString("Definition c19w_ncases := Eval vm_compute in length webruns.\nPrint c19w_ncases.\n")
+	sb.WriteString("Definition icases : list icase := [\n" + strings.Join(icases, ";\n") + "\n].\n")
+	sb.WriteString("Definition c19i_bad (c : icase) : bool := negb (icheck c).\n")
+	sb.WriteString("Definition c19i_mismatches := Eval vm_compute in mismatches c19i_bad icases.\nPrint c19i_mismatches.\n")
+	sb.WriteString("Definition c19i_violating := Eval vm_compute in mismatches (fun c => c19i_bad c && iviolates c) icases.\nPrint c19i_violating.\n")
+	sb.WriteString("Definition c19i_violating_mode := Eval vm_compute in mismatches (fun c => c19i_bad c && iviolates_mode c) icases.\nPrint c19i_violating_mode.\n")
+	sb.WriteString("Definition c19i_ncases := Eval vm_compute in length icases.\nPrint c19i_ncases.\n")
 	sb.WriteString("Definition c19_ncases := Eval vm_compute in length runs.\nPrint c19_ncases.\n")
 	if err := ioutil.WriteFile(filepath.Join(verifOut(), "CasesC19.v"), []byte(sb.String()), 0644); err != nil {
 		t.Fatal(err)
 	}
 	ioutil.WriteFile(filepath.Join(verifOut(), "CasesC19.idx"), []byte(strings.Join(idx, "\n")+"\n"), 0644)
+	ioutil.WriteFile(filepath.Join(verifOut(), "CasesC19I.idx"), []byte(strings.Join(iidx, "\n")+"\n"), 0644)
+	ioutil.WriteFile(filepath.Join(verifOut(), "CasesC19W.idx"), []byte(strings.Join(webidx, "\n")+"\n"), 0644)
 	res.write(t, "TestVerif_C19")
+}
+
+// ---------------------------------------------------------------- which agent
+
+// the client's real insertSSHCertIntoAgentORWriteToFilesystem in every agent environment situation, decoy agents
+// listening where agents conventionally live (harness/base/c19env.go): the private key must be in the agent
+// SSH_AUTH_SOCK names when that one works, else in the 0600 key file, and in no other agent.
+// Observed: the listing of every agent of the scene and the files under HOME; Coq: Model/ClientEnv.v install_ssh_env.
+func c19cEnvCases(t *testing.T, res *verifResult, logger *testlogger.Logger) (cases, idx []string) {
+	rng := verifRand()
+	root, cleanup, err := c19eRoot()
+	if err != nil {
+		t.Fatal(err)
+	}
+	defer cleanup()
+	oldUmask := syscall.Umask(022)
+	defer syscall.Umask(oldUmask)
+	caKey, _ := ecdsa.GenerateKey(elliptic.P256(), rand.Reader)
+	caSigner, _ := ssh.NewSignerFromKey(caKey)
+	serial := uint64(100)
+	mkCert := func(priv crypto.Signer) *ssh.Certificate {
+		pub, _ := ssh.NewPublicKey(priv.Public())
+		serial++
+		c := &ssh.Certificate{Key: pub, Serial: serial, CertType: ssh.UserCert, KeyId: "verif", ValidPrincipals: []string{"alice"},
+			ValidAfter: uint64(time.Now().Unix() - 60), ValidBefore: uint64(time.Now().Unix() + 3600)}
+		c.SignCert(rand.Reader, caSigner)
+		return c
+	}
+	newKey := func(suffix string) crypto.Signer {
+		switch suffix {
+		case "p256":
+			k, _ := ecdsa.GenerateKey(elliptic.P256(), rand.Reader)
+			return k
+		case "p384":
+			k, _ := ecdsa.GenerateKey(elliptic.P384(), rand.Reader)
+			return k
+		}
+		_, k, _ := ed25519.GenerateKey(rand.Reader)
+		return k
+	}
+	suffixes := []string{"p256", "ed25519", "p384"}
+	type plan struct {
+		situation string
+		all       bool
+	}
+	var plans []plan
+	for _, s := range c19eSituations {
+		plans = append(plans, plan{s, true})
+	}
+	extra := 10
+	if verifThorough() {
+		extra = 150
+	}
+	for i := 0; i < extra; i++ {
+		plans = append(plans, plan{c19eSituations[rng.Intn(len(c19eSituations))], false})
+	}
+	user := "alice"
+	for id, pl := range plans {
+		suffix := suffixes[(id+rng.Intn(2))%len(suffixes)]
+		label := FilePrefix + "-" + suffix + "-" + user
+		mask := rng.Intn(1 << 11)
+		if pl.all {
+			mask = 1<<11 - 1
+		}
+		preload := func(kr agent.Agent, designated bool) {
+			k1 := newKey("p256")
+			kr.Add(agent.AddedKey{PrivateKey: k1, Certificate: mkCert(k1), Comment: label})
+			if designated || rng.Intn(2) == 0 {
+				k2 := newKey("p256")
+				kr.Add(agent.AddedKey{PrivateKey: k2, Comment: label})
+			}
+		}
+		sc, err := newC19eScene(root, id, pl.situation, func(i int) bool { return mask&(1<<uint(i)) != 0 }, preload)
+		if err != nil {
+			t.Errorf("scene %d: %v", id, err)
+			res.hit(verifHit{Key: "C19:harness:scene", Oracle: "harness", What: "could not build the agent scene: " + err.Error(), Case: pl.situation})
+			continue
+		}
+		keyPath := filepath.Join(sc.home, ".ssh", FilePrefix+"-"+suffix)
+		existing := ""
+		if id%3 == 1 && sc.designatedAgent() == nil {
+			// a key file that others can read is already there (only where the client is going to write it: with a
+			// working agent the client does not touch key files, an old one would stay as the harness made it)
+			ioutil.WriteFile(keyPath, []byte("an older key file\n"), 0644)
+			os.Chmod(keyPath, 0644)
+			existing = " existing key file 0644"
+		}
+		priv := newKey(suffix)
+		cert := mkCert(priv)
+		world, env, desc := sc.coqWorld(), sc.coqEnv(), sc.describe()+existing
+		callErr := insertSSHCertIntoAgentORWriteToFilesystem(ssh.MarshalAuthorizedKey(cert), priv, FilePrefix+"-"+suffix, user, keyPath, false, logger)
+		n := c19eEntry{label, c19eBlobID(cert.Marshal()), true}
+		cs := map[string]interface{}{"situation": pl.situation, "function": "insertSSHCertIntoAgentORWriteToFilesystem", "key_suffix": suffix, "scene": desc, "reported_error": fmt.Sprint(callErr)}
+		sc.oracle(res, "client insertSSHCertIntoAgentORWriteToFilesystem", n.blob, cs)
+		des := sc.designatedAgent()
+		inDesignated := false
+		if des != nil {
+			for _, e := range c19eListing(des.rec.Agent) {
+				if e == n {
+					inDesignated = true
+				}
+			}
+		}
+		var files []c19File
+		filepath.Walk(sc.home, func(p string, fi os.FileInfo, err error) error {
+			if err != nil || fi.IsDir() || fi.Mode()&os.ModeSocket != 0 {
+				return nil
+			}
+			rel, _ := filepath.Rel(sc.home, p)
+			files = append(files, c19File{rel, fi.Mode().Perm(), c19LooksPrivate(p)})
+			return nil
+		})
+		sort.Slice(files, func(i, j int) bool { return files[i].rel < files[j].rel })
+		inFile := false
+		if k := c19ParsePrivateFile(keyPath); k != nil {
+			if sg, ok := k.(crypto.Signer); ok {
+				inFile = fmt.Sprint(sg.Public()) == fmt.Sprint(priv.Public())
+			} else if pk, ok := k.(*ed25519.PrivateKey); ok {
+				inFile = fmt.Sprint(pk.Public()) == fmt.Sprint(priv.Public())
+			}
+		}
+		var cfiles []string
+		for _, f := range files {
+			if f.private && f.mode&0077 != 0 {
+				res.hit(verifHit{Key: "C19:key-file-mode:" + f.rel, Oracle: "a private key file is readable by others", Kind: "input",
+					What: fmt.Sprintf("%s has mode %o after insertSSHCertIntoAgentORWriteToFilesystem; %s", f.rel, f.mode, desc), Case: cs, Observed: fmt.Sprintf("%o", f.mode)})
+			}
+			cfiles = append(cfiles, fmt.Sprintf("(\"%s\"%%string, %d%%N, %s)", f.rel, int(f.mode), coqBool(f.private)))
+		}
+		if callErr != nil {
+			t.Errorf("insertSSHCertIntoAgentORWriteToFilesystem: %v (%s)", callErr, desc)
+			res.hit(verifHit{Key: "C19:harness:install", Oracle: "harness", What: "insertSSHCertIntoAgentORWriteToFilesystem failed: " + callErr.Error(), Case: cs})
+		} else if !inDesignated && !inFile {
+			res.hit(verifHit{Key: "C19:key-neither-in-designated-agent-nor-file:" + pl.situation, Oracle: "after a successful installation the private key is in the agent SSH_AUTH_SOCK names or in the 0600 key file", Kind: "input",
+				What: fmt.Sprintf("success reported, but the private key is neither in the designated agent (working: %v) nor in %s; %s", des != nil, keyPath, desc), Case: cs})
+		}
+		cases = append(cases, fmt.Sprintf(" (%s,\n   %s,\n   \"%s\"%%string, \"%s\"%%string, %s,\n   %s,\n   [%s])", env, world, suffix, user, n.coq(), sc.coqObserved(), strings.Join(cfiles, "; ")))
+		idx = append(idx, fmt.Sprintf("%d\tinsertSSHCertIntoAgentORWriteToFilesystem key=%s %s -> error=%v in-designated-agent=%v in-key-file=%v files=%v", len(idx), suffix, desc, callErr, inDesignated, inFile, files))
+		res.bump("which-agent-client:" + pl.situation)
+		res.eval(fmt.Sprintf("which-agent-client|%s|%s|%v", pl.situation, suffix, existing != ""), des == nil)
+		sc.close()
+	}
+	return cases, idx
+}
+
+// ---------------------------------------------------------------- the user's browser (web login)
+
+var c19JWTPattern = regexp.MustCompile(`eyJ[A-Za-z0-9_-]+\.[A-Za-z0-9_-]+\.[A-Za-z0-9_-]+`)
+
+// the user logs in to keymasterd in the browser and opens the CLI token page
+func c19BrowserLogin(rootCAs *x509.CertPool, target, user, password string) (*http.Client, string, error) {
+	jar, _ := cookiejar.New(nil)
+	browser := &http.Client{Jar: jar, Timeout: 20 * time.Second, Transport: &http.Transport{TLSClientConfig: &tls.Config{RootCAs: rootCAs}}}
+	resp, err := browser.PostForm(target+"/api/v0/login", url.Values{"username": {user}, "password": {password}})
+	if err != nil {
+		return nil, "", err
+	}
+	ioutil.ReadAll(resp.Body)
+	resp.Body.Close()
+	if resp.StatusCode != 200 {
+		return nil, "", fmt.Errorf("login answered %d", resp.StatusCode)
+	}
+	resp, err = browser.Get(target + "/showAuthToken")
+	if err != nil {
+		return nil, "", err
+	}
+	body, _ := ioutil.ReadAll(resp.Body)
+	resp.Body.Close()
+	token := c19JWTPattern.Find(body)
+	if resp.StatusCode != 200 || token == nil {
+		return nil, "", fmt.Errorf("/showAuthToken answered %d, token found: %v", resp.StatusCode, token != nil)
+	}
+	return browser, string(token), nil
+}
+
+// the browser command was started with a URL: open it (keymasterd redirects to the client's local listener with the
+// authentication cookie, the listener redirects to its close-this-tab page)
+func c19BrowserOpen(browser *http.Client, urlFile string, done chan struct{}) {
+	defer close(done)
+	deadline := time.Now().Add(50 * time.Second)
+	for time.Now().Before(deadline) {
+		if b, err := ioutil.ReadFile(urlFile); err == nil {
+			for _, line := range strings.Split(string(b), "\n") {
+				if strings.Contains(line, "/sendAuthDocument?") {
+					if resp, err := browser.Get(strings.TrimSpace(line)); err == nil {
+						ioutil.ReadAll(resp.Body)
+						resp.Body.Close()
+					}
+					return
+				}
+			}
+		}
+		time.Sleep(20 * time.Millisecond)
+	}
 }
